@@ -70,6 +70,8 @@ def classify(record):
         return f"{name}.scratch_dependent" if eq == 0 else None
     if op == 60:
         return "scratch_split_mut.unaligned_len"
+    if op == 55:
+        return "cnv_pairwise_apply_dft.args_swapped"
     if op == 116:
         return "glwe_mul_const.underestimate"
     if op in (125, 126):
